@@ -28,6 +28,8 @@ def call(c):
 
 
 def fault(e):
+    if e["mode"] == "delay":
+        return "FOk"      # a slow call, not a failure
     if e["mode"] == "before":
         return "FBefore"
     if e["mode"] in ("after", "late"):
@@ -63,7 +65,7 @@ def model_mismatches(ctx, name, runs):
 
 def consumed(r):
     keys = {(c["k"], c["g"], c["n"]) for c in r["calls"]}
-    return [e for e in (r.get("sched") or []) if (e["k"], e["g"], e["n"]) in keys]
+    return [e for e in (r.get("sched") or []) if e["mode"] != "delay" and (e["k"], e["g"], e["n"]) in keys]
 
 
 # ---- classifiers of the known findings (narrow: exactly that defect) ----
@@ -146,7 +148,7 @@ def slim(r):
 def run(ctx):
     ctx.add_obligations(vcheck.coq_props("Exec", "C20"))
     ctx.cov["checker_cmd"] = "coqc -Q coq/Exec BWExec coq/Exec/Props/C20.v; work/bin/h_fault -seed S -n N | model evaluated by vm_compute (coq/Exec/Corr.v fault_agrees)"
-    n = 600 if ctx.tier == "thorough" else 40
+    n = 600 if ctx.tier == "thorough" else 48
     runs = hfault(["-seed", str(ctx.seed), "-n", str(n)] + (["-deep"] if ctx.tier == "thorough" else ["-maxids", "30"]))
     if ctx.replay:
         rp = json.load(open(ctx.replay))
@@ -209,6 +211,10 @@ def run(ctx):
                        "non-trivial = a failure entry was consumed; distinct by (store prefix, statement, schedule, bulk)")
     ctx.cov["samples"] = [slim(r) for r in runs if consumed(r)][:3]
     ctx.cov["statements"] = len({r["case"] for r in runs})
+    ctx.cov["runs_under_gomaxprocs_1"] = sum(1 for r in runs if r.get("procs") == 1)
+    ctx.cov["runs_with_slow_twin_call"] = sum(1 for r in runs if any(e["mode"] == "delay" for e in (r.get("sched") or [])))
+    ctx.cov["runs_failing_after_limit_elements"] = sum(1 for r in runs if "LIMIT" in r["stmt"]["text"]
+                                                      and any(e["mode"] in ("after", "late") and e["j"] >= 2 for e in (r.get("sched") or [])))
     ctx.cov["runs_through_memoizer"] = sum(1 for r in runs if r.get("memo"))
     ctx.cov["runs_with_lingering_driver"] = sum(1 for r in runs if any(e["mode"] == "late" for e in (r.get("sched") or [])))
     ctx.cov["write_calls_in_multi_triple_statements"] = sum(1 for r in runs if not r.get("sched") and r["stmt"]["kind"] in ("insert", "delete")
